@@ -42,6 +42,19 @@ Theorem C09_unseen_levels_are_announced : forall sp d, warns sp d = true <->
   exists e lvs v dl s, In (e, KCat lvs) (sp_enc sp) /\ lookup d e = Some (CCat v dl) /\ In (Some s) v /\ ~ In s lvs.
 Proof. exact warns_iff. Qed.
 
+(* non-vacuity for the unseen-level half: the spec recorded A with the single level x; new data holds x and the unseen z -- the column stays
+   A[x], the row of z is zero, the warning is issued; without z there is no warning *)
+Example C09_unseen_example :
+  let sp := {| sp_terms := [[{| fx := [65]%N; fk := FLookup |}]];
+               sp_struct := [([{| st_f := [([65]%N, false)]; st_scale := Q2Qc 1 |}], [[65;91;120;93]%N])];
+               sp_enc := [([65]%N, KCat [[120]%N])];
+               sp_cfg := {| full_rank := false; na_action := NaDrop; caller_drop := [] |} |} in
+  let d := [([65]%N, CCat [Some [120]%N; Some [122]%N] None)] in
+  replay sp d 2 [] = inl ([[65;91;120;93]%N], [[Some (Q2Qc 1); Some (Q2Qc 0)]], []) /\ warns sp d = true /\
+  warns sp [([65]%N, CCat [Some [120]%N] None)] = false.
+Proof. vm_compute. auto. Qed.
+
+Print Assumptions C09_unseen_example.
 Print Assumptions C09_unseen_levels_are_announced.
 Print Assumptions C09_kind_change_is_error.
 Print Assumptions C09_kind_error_only_for_kind_change.
